@@ -150,8 +150,7 @@ fn index_number(container: &V, n: &V) -> Result<Option<V>, Stop> {
             } else if (i as usize) < items.len() {
                 Ok(Some(items[i as usize].clone()))
             } else {
-                // Simple yields unit, Basic an error (open finding under C16): not judged here
-                Err(Stop::Undefined("list-index-past-the-end"))
+                Ok(None)
             }
         }
         V::Text(t) => Ok(if i >= 0 && (i as usize) < t.len() { Some(V::Char(t[i as usize])) } else { None }),
